@@ -100,6 +100,21 @@ Theorem C02_session_key_sources :
 Proof. split; [reflexivity|discriminate]. Qed.
 Print Assumptions C02_session_key_sources.
 
+(** The nonce handed to the AEAD is the nonce the theorems are about: Seal is
+    called once, with the array built by buildSendNonce (the same array that is
+    copied to the front of the frame) and no associated data; Open likewise
+    with the frame's first 12 bytes.  (Sealing with a different IV and moving
+    the direction bytes into the associated data keeps every test green and
+    makes the two directions share key and nonce: seeded change C02_r2_3.) *)
+Theorem C02_aead_arguments :
+  gen_c02_aead_seal_calls = 1 /\ gen_c02_aead_open_calls = 1 /\
+  gen_c02_aead_seal_nonce_is_built_nonce = true /\ gen_c02_aead_seal_nonce_is_frame_prefix = true /\
+  gen_c02_aead_seal_no_associated_data = true /\
+  gen_c02_aead_open_nonce_is_frame_prefix = true /\ gen_c02_aead_open_nonce_is_the_tested_nonce = true /\
+  gen_c02_aead_open_no_associated_data = true.
+Proof. repeat split; reflexivity. Qed.
+Print Assumptions C02_aead_arguments.
+
 Definition site_ok (s : string * string * N * N) : bool :=
   let '(_, _, role, flag) := s in (N.eqb role flag) && (N.ltb flag 2).
 
